@@ -167,6 +167,8 @@ def main():
                              "tools/seedtest.py detect: git -C /repo apply, ./check <pid> --tier quick, git -C /repo checkout -- ."],
             "detected_by": {p: {"exit": c["exit"], "first_line": (c["lines"] or [""])[0]} for p, c in det.get("checks", {}).items()},
         }
+        if conf.get("confirmed_by_hand"):
+            meta["confirmed"]["by_hand"] = conf["confirmed_by_hand"]
         json.dump(meta, open(os.path.join(dst, "meta.json"), "w"), indent=1)
         print("adopted", sid)
 
